@@ -24,16 +24,16 @@ import (
 
 // exit paths of one session
 const (
-	pathNoOffer        = iota // the broker's poll response is malformed: no offer
-	pathRejectedURL           // the offer comes with a relay URL outside the proxy's pattern
-	pathBadOffer              // the offer is not a session description
-	pathPCError               // the peer connection cannot be made
-	pathAnswerGone            // the broker says "client gone" to the answer
-	pathAnswerError           // the answer request fails at the transport
-	pathNeverOpens            // the client never opens the data channel (20 s timeout)
-	pathRelayDown             // the data channel opens, the relay cannot be reached
-	pathNormal                // the data channel opens, traffic flows, the session ends after 30 s
-	pathOpenAtTimeout         // the data channel opens exactly when the 20 s timeout fires
+	pathNoOffer       = iota // the broker's poll response is malformed: no offer
+	pathRejectedURL          // the offer comes with a relay URL outside the proxy's pattern
+	pathBadOffer             // the offer is not a session description
+	pathPCError              // the peer connection cannot be made
+	pathAnswerGone           // the broker says "client gone" to the answer
+	pathAnswerError          // the answer request fails at the transport
+	pathNeverOpens           // the client never opens the data channel (20 s timeout)
+	pathRelayDown            // the data channel opens, the relay cannot be reached
+	pathNormal               // the data channel opens, traffic flows, the session ends after 30 s
+	pathOpenAtTimeout        // the data channel opens exactly when the 20 s timeout fires
 	nPaths
 )
 
@@ -52,16 +52,24 @@ type proxyWorld struct {
 	session  int // index of the next session to start
 	relayURL []string
 
-	polls      []pollRec
-	dialled    []string
-	problems   []string
-	maxInUse   int64
-	ended      int // sessions whose handler or runSession fully ended
-	copyDone   map[int]chan struct{}
-	newPC      func() *webrtc.PeerConnection
-	pcs        []*webrtc.PeerConnection
-	loopPolls  int
-	stopAfter  int
+	polls     []pollRec
+	dialled   []string
+	problems  []string
+	maxInUse  int64
+	ended     int // sessions whose handler or runSession fully ended
+	copyDone  map[int]chan struct{}
+	newPC     func() *webrtc.PeerConnection
+	pcs       []*webrtc.PeerConnection
+	loopPolls int
+	stopAfter int
+	windowMax int64 // largest number of slots in use noted since the last poll reached the broker
+}
+
+// noteInUse is called by harness threads right before and right after they release a slot.
+func (w *proxyWorld) noteInUse(plus int64) {
+	if n := tokens.count() + plus; n > w.windowMax {
+		w.windowMax = n
+	}
 }
 
 // scriptedBroker is the http.RoundTripper of the SignalingServer.
@@ -79,7 +87,13 @@ func (s scriptedBroker) RoundTrip(req *http.Request) (*http.Response, error) {
 		if err != nil {
 			w.problems = append(w.problems, "the proxy sent an undecodable poll: "+err.Error())
 		}
+		// the load was computed some time after the previous poll was answered: the slots in use then
+		// were at most the largest number seen since (clients leaving are noted by noteInUse)
 		inUse := tokens.count()
+		if w.windowMax > inUse {
+			inUse = w.windowMax
+		}
+		w.windowMax = 0
 		w.polls = append(w.polls, pollRec{clients: clients, inUse: inUse, at: time.Duration(nowNanosP())})
 		if clients%8 != 0 || int64(clients) > inUse {
 			w.problems = append(w.problems, fmt.Sprintf("poll reports Clients=%d with %d slots in use", clients, inUse))
